@@ -72,6 +72,8 @@ type SliceVal struct {
 	Elem types.Type
 	ESrt string
 	Own  Own // ownership class when Obj == nil
+	From *fieldLoc // the heap field this value slice was read from (writes through it are allowed when the owning
+	// object was allocated in the current call: they update the field)
 }
 
 // Loc is an assignable location.
@@ -212,6 +214,7 @@ func newWorld() *World {
 	w.decls.declare("Range", "(declare-datatypes ((Range 0)) (((mkRange (From Int) (To Int)))))")
 	w.decls.declare("nilT", "(declare-fun nilT () T)")
 	w.decls.declare("nil_Fn", "(declare-fun nil_Fn () Fn)")
+	w.decls.declare("published", "(declare-fun published (T) Bool)")
 	w.decls.declare("nilData", "(declare-fun nilData () Data)")
 	return w
 }
